@@ -54,6 +54,9 @@ impl SOp {
 pub struct RefTranscript {
     pub t: Transcript,
     pub sched: Vec<SOp>,
+    /// when set: after every operation, what a weight squeezed from a clone
+    /// of the transcript AT THAT POINT under label "r" would be
+    pub probe_r: Option<Vec<Vec<u8>>>,
 }
 
 impl RefTranscript {
@@ -65,6 +68,7 @@ impl RefTranscript {
                 label: b"dom-sep".to_vec(),
                 msg: label.to_vec(),
             }],
+            probe_r: None,
         }
     }
     pub fn append(&mut self, label: &'static [u8], msg: &[u8]) {
@@ -73,6 +77,17 @@ impl RefTranscript {
             label: label.to_vec(),
             msg: msg.to_vec(),
         });
+        self.probe();
+    }
+    fn probe(&mut self) {
+        if self.probe_r.is_some() {
+            let mut out = vec![0u8; 32];
+            merlin::sim::with_recording_paused(|| {
+                let mut c = self.t.clone();
+                c.challenge_bytes(b"r", &mut out);
+            });
+            self.probe_r.as_mut().unwrap().push(out);
+        }
     }
     pub fn append_u64(&mut self, label: &'static [u8], x: u64) {
         self.append(label, &x.to_le_bytes());
@@ -94,6 +109,7 @@ impl RefTranscript {
             label: label.to_vec(),
             out: out.clone(),
         });
+        self.probe();
         out
     }
     /// challenge scalar: 32 challenge bytes seed ChaCha20, then `F::rand`.
@@ -143,6 +159,8 @@ pub struct RefResult<F: PrimeField> {
     pub phase2_chals: Vec<F>,
     /// the reference transcript after the run, for follow-up challenges
     pub followup: Vec<u8>,
+    /// r-candidates per schedule position (only with `probe`)
+    pub r_candidates: Vec<Vec<u8>>,
 }
 
 impl<F: PrimeField> RefResult<F> {
@@ -186,9 +204,23 @@ pub fn ref_verify<G: AffineRepr>(
     commitments: &[G],
     pf: &ProofFields<G>,
 ) -> RefResult<G::ScalarField> {
+    ref_verify_opt::<G>(st, commitments, pf, false)
+}
+
+/// `probe`: also record, after every schedule position, the weight a
+/// verifier would get if it (wrongly) derived its batching weight there.
+pub fn ref_verify_opt<G: AffineRepr>(
+    st: &Statement,
+    commitments: &[G],
+    pf: &ProofFields<G>,
+    probe: bool,
+) -> RefResult<G::ScalarField> {
     type Fr<G> = <G as AffineRepr>::ScalarField;
     let (bb, bbl) = bases_for::<G>(&st.bases);
     let mut rt = RefTranscript::new(TLABELS[st.tlabel]);
+    if probe {
+        rt.probe_r = Some(vec![vec![]]);
+    }
     for (l, d) in &st.pre {
         rt.append(LABELS[*l], d);
     }
@@ -356,6 +388,7 @@ pub fn ref_verify<G: AffineRepr>(
         rel_c = p == rhs;
     }
 
+    let r_candidates = rt.probe_r.take().unwrap_or_default();
     let followup = rt.challenge_bytes(b"bpsim-followup", 32);
     rt.sched.pop();
     RefResult {
@@ -377,6 +410,7 @@ pub fn ref_verify<G: AffineRepr>(
         m: cs.m,
         phase2_chals: cs.chals.clone(),
         followup,
+        r_candidates,
     }
 }
 
